@@ -436,7 +436,7 @@ fn run_len(len: usize, ctx: &mut Ctx, only: Option<String>) {
 
 fn main() {
     let run = Run::from_args("C02");
-    let max_len = run.pick(6, 7);
+    let max_len = run.pick(7, 16);
     if let Some(path) = &run.replay {
         let stored = load_replay(path).unwrap_or_else(|e| {
             eprintln!("MACHINERY-ERROR: {e}");
